@@ -579,6 +579,9 @@ func runC18(c *report.Ctx) {
 		}
 	}
 
+	// ---- errors inside a transaction closure are not swallowed ---------------------------------------------
+	ruleNoSwallowedErrorInUpdate(c, 13)
+
 	// ---- (5) next index from the transaction ---------------------------------------------------------------------
 	ruleNextIndexFromTx(c)
 	_ = sort.Strings
